@@ -3,6 +3,7 @@ package actionlint
 import (
 	"fmt"
 	"io"
+	"sort"
 	"time"
 )
 
@@ -64,7 +65,19 @@ func (v *Visitor) Visit(n *Workflow) error {
 		t = time.Now()
 	}
 
+	// n.Jobs is a map. Visit jobs in the order of their definitions. Otherwise results of rules which
+	// keep some state across jobs depend on the iteration order of the map
+	jobs := make([]*Job, 0, len(n.Jobs))
 	for _, j := range n.Jobs {
+		jobs = append(jobs, j)
+	}
+	sort.Slice(jobs, func(i, j int) bool {
+		if jobs[i].Pos == nil || jobs[j].Pos == nil {
+			return jobs[j].Pos != nil
+		}
+		return jobs[i].Pos.IsBefore(jobs[j].Pos)
+	})
+	for _, j := range jobs {
 		if err := v.visitJob(j); err != nil {
 			return err
 		}
